@@ -37,16 +37,33 @@
    bucket, and the SWAR probe visits every slot carrying the tag and never a
    slot marked empty (util.go; checked against the code by CORR-sched with the
    exact probe_swar, not proved for it).
-   NOT yet a closed theorem: that the new table published by a grow / shrink has
-   the [vis] of the old one (the sequential copy does: C11), and the final
-   composition into "every history is linearizable" (readers linearize at a
-   moment inside their interval; writers stalled on a table replaced by Clear
-   linearize just before it).
+     C04_abs_step      (the abstract map, [abs] = what a reader loading m.table now
+                       can find) every step of every thread from every reachable
+                       state changes [abs] in exactly one of these ways:
+                         - the linearization store of a writer working on the
+                           CURRENT table updates / removes that writer's key;
+                         - the store that publishes the new table of a grow or a
+                           shrink leaves [abs] as it is -- nothing lost, nothing
+                           resurrected, although writers were active on buckets
+                           not yet copied (XR: the unpublished table holds what is
+                           visible in the buckets copied so far; no writer is past
+                           its post-lock checks on a copied bucket);
+                         - the store that publishes the table of a Clear empties it;
+                         - every other step (and every store into a table that is
+                           no longer current) leaves [abs] unchanged.
+     C04_clear_kt      [clear_kt kt] (the continuation is "return from Clear")
+                       identifies the resizes that are Clears.
+   NOT a closed theorem: the final composition into "every history is
+   linearizable": readers linearize at a moment inside their interval (C16 gives
+   what they do, C04_vis_step what they can see), and a writer that passed its
+   checks before a Clear published its table completes on the old table and has
+   to be linearized just before that Clear.  That composition is checked on the
+   real code by the schedule search (porcupine).
    The search part of the check runs the real code under random / PCT schedules
    with colliding hashers and tables at the grow / shrink thresholds and checks
    every history for linearizability (porcupine). *)
 From CacheV Require Import Base SpecMap TableModel XMachine TabExec Exec XExec.
-From CacheV.proofs Require Import C11_lists C11_table C11_idx X_basic X_inv X_c13 X_inst X_own X_chain X_c04 X_lin.
+From CacheV.proofs Require Import C11_lists C11_table C11_idx X_basic X_inv X_c13 X_inst X_own X_chain X_c04 X_lin X_resize.
 From Coq Require Import NArith.
 Local Open Scope nat_scope.
 
@@ -64,10 +81,10 @@ Theorem C04_sequential :
          (grow_needed shrink_policy : nat -> nat -> bool),
     (forall h len, (0 < len)%nat -> (idx h len < len)%nat) ->
     forall fuel (ops : list (mop K V A)) (m : @tmap K V) (a : amap K V) m' rs,
-      WFm hash idx tag nslots m -> meq eqd (abs nslots m) a ->
+      WFm hash idx tag nslots m -> meq eqd (C11_table.abs nslots m) a ->
       run_table eqd hash idx tag nslots seeds true grow_needed shrink_policy fuel m ops = Some (m', rs) ->
       let '(a', rs') := run_spec eqd a ops in
-      WFm hash idx tag nslots m' /\ meq eqd (abs nslots m') a' /\ Forall2 res_equiv rs rs'.
+      WFm hash idx tag nslots m' /\ meq eqd (C11_table.abs nslots m') a' /\ Forall2 res_equiv rs rs'.
 Proof.
   intros K V A eqd hash idx tag nslots seeds grow_needed shrink_policy Hidx fuel ops m a m' rs.
   exact (run_refines eqd hash idx tag nslots seeds true grow_needed shrink_policy Hidx fuel ops m a m' rs).
@@ -101,6 +118,27 @@ Theorem C04_vis_functional :
     vis hash idx (@tab_at K V nslots nstripes s tab) k v1 -> vis hash idx (@tab_at K V nslots nstripes s tab) k v2 -> v1 = v2.
 Proof. exact @vis_functional_proof. Qed.
 Print Assumptions C04_vis_functional.
+
+Theorem C04_abs_step :
+  forall (K V : Type) (eqd : forall a b : K, {a = b} + {a <> b}) hash idx tag nslots seeds g sh probe nstripes minlen grow_only,
+    xhyps4 idx nstripes minlen nslots probe -> forall len0 todo sched t s' ls, 0 < len0 ->
+    let s := fst (@xrun K V eqd hash idx tag nslots seeds g sh probe nstripes minlen grow_only (xinit nslots seeds nstripes len0 todo) sched) in
+    @xstep K V eqd hash idx tag nslots seeds g sh probe nstripes minlen grow_only s t = Some (s', ls) ->
+    match g_pc s t with
+    | PR_Publish kt new =>
+        (clear_kt kt /\ forall k v, ~ X_resize.abs hash idx nslots nstripes s' k v)
+        \/ (~ clear_kt kt /\ forall k v, X_resize.abs hash idx nslots nstripes s' k v <-> X_resize.abs hash idx nslots nstripes s k v)
+    | p => forall k v, X_resize.abs hash idx nslots nstripes s' k v <-> upd_rel (X_resize.abs hash idx nslots nstripes s) (lin_effect p (g_cur s)) k v
+    end.
+Proof. exact @abs_step_proof. Qed.
+Print Assumptions C04_abs_step.
+
+Theorem C04_clear_kt :
+  forall (K V : Type) (eqd : forall a b : K, {a = b} + {a <> b}) hash idx tag nslots seeds g sh probe nstripes minlen grow_only,
+    xhyps4 idx nstripes minlen nslots probe -> forall len0 todo sched t, 0 < len0 ->
+    hint_ok (g_pc (fst (@xrun K V eqd hash idx tag nslots seeds g sh probe nstripes minlen grow_only (xinit nslots seeds nstripes len0 todo) sched)) t).
+Proof. exact @clear_kt_proof. Qed.
+Print Assumptions C04_clear_kt.
 
 (* non-vacuity: all keys collide (constant hash); thread 0 has stored the meta byte
    of its insert and is about to store the entry pointer: lin_effect binds key 7 *)
